@@ -408,6 +408,27 @@ func checkExitAfterCompletion(p *Program, r *Report, short string) {
 		r.Undecide("C18.E1", key+" exit test", "-", "parser not found")
 		return
 	}
+	// a parser that only forwards (extractMetadata → extractMetadataWithOptions): the rule is
+	// about the function that holds the parse loop
+	for hop := 0; hop < 3 && len(loopsOf(fn)) == 0; hop++ {
+		var next *ssa.Function
+		n := 0
+		for _, b := range fn.Blocks {
+			for _, in := range b.Instrs {
+				if c, ok := in.(*ssa.Call); ok {
+					if cf := staticCallee(c); cf != nil && isPrismFn(cf) && cf.Pkg == fn.Pkg {
+						next = cf
+						n++
+					}
+				}
+			}
+		}
+		if n != 1 {
+			break
+		}
+		fn = next
+		r.SawFn(shortFn(fn))
+	}
 	// the completeness closure: func() bool, called in fn
 	var mc *ssa.MakeClosure
 	for _, b := range fn.Blocks {
